@@ -399,6 +399,11 @@ pub fn generate(kind: &str, seed: u64, run: u64, thorough: bool) -> Scenario {
             if tr.chance(1, 3) {
                 sc.pct = Some((1 + tr.below(3), 50 + tr.below(200)));
             }
+            // one run in three: decisions also at allocation seams inside the engine (windows
+            // between two call-backs / expression nodes)
+            if tr.chance(1, 3) {
+                sc.alloc_mean = *tr.pick(&[3u32, 10, 40, 150]);
+            }
         }
         _ => {}
     }
@@ -857,6 +862,11 @@ fn exec_threads(sc: &Scenario) -> Outcome {
         (None, None) => Strategy::Random(sc.sched_seed),
     };
     let sched = Sched::new(plans.len(), strategy);
+    if sc.alloc_mean > 0 {
+        sched.set_alloc_mode();
+    }
+    let alloc_mean = sc.alloc_mean;
+    let alloc_seed = sc.sched_seed;
     let rule = Arc::new(rule);
     let modified: Arc<Mutex<Vec<String>>> = Arc::new(Mutex::new(vec![]));
     let results: Arc<Mutex<Vec<(usize, usize, Result<bool, String>)>>> = Arc::new(Mutex::new(vec![]));
@@ -880,6 +890,15 @@ fn exec_threads(sc: &Scenario) -> Outcome {
         let shared = shared.clone();
         let use_shared = sc.shared_doc;
         bodies.push(Box::new(move || {
+            // allocation seam: switched on only while the thread is inside the engine (never while
+            // it holds one of the harness's own locks)
+            let seam = |tid: usize| {
+                if alloc_mean > 0 {
+                    Some(crate::allocseam::enable(&sched2, alloc_mean, alloc_seed ^ (tid as u64 + 1).wrapping_mul(0x9e37_79b9_7f4a_7c15), tid + 1))
+                } else {
+                    None
+                }
+            };
             for op in plan {
                 let i = match op {
                     Op::Match(i) => i,
@@ -918,9 +937,11 @@ fn exec_threads(sc: &Scenario) -> Outcome {
                     continue;
                 }
                 let r = if use_shared {
+                    let _g = seam(t);
                     matches_doc(&rule, &shared[i])
                 } else {
                     let ctx = Ctx::new(false, vec![], Some(sched2.clone()));
+                    let _g = seam(t);
                     verdict_with(&rule, &docs[i], &render, &ctx)
                 };
                 results.lock().unwrap().push((t, i, r.map_err(|p| format!("{} at {}", p.msg, p.site()))));
@@ -928,6 +949,20 @@ fn exec_threads(sc: &Scenario) -> Outcome {
         }));
     }
     sched.run(bodies, 64 << 20, sc.engine_seams);
+    if sc.alloc_mean > 0 {
+        stats.inc("runs_with_allocation_seams");
+        // where an allocation seam falls depends on process-wide state of a dependency (the regex
+        // crate numbers threads with a process-wide counter and picks a cache stack by it), so the
+        // schedule of such a run is a function of the scenario AND of how many threads the process
+        // has had: its digest is not compared between processes (verdict oracle unaffected)
+        stats.inc("digest_not_comparable_between_processes");
+        if sched.abandoned() {
+            // a parked thread held a lock the released thread needed: no verdict for this schedule
+            stats.inc("schedules_abandoned_lock_held_across_an_allocation_seam");
+            stats.inc("heavy_scenarios_cut_short");
+            return Outcome::clean(&d, stats);
+        }
+    }
     let trace = sched.trace();
     let results = results.lock().unwrap().clone();
     for (t, i, r) in &results {
